@@ -476,3 +476,437 @@ pub fn ristretto_basepoint_table_entries() -> Vec<[Fe; 3]> {
 pub fn basepoint_order_private() -> Scalar {
     crate::constants::BASEPOINT_ORDER_PRIVATE
 }
+
+// ------------------------------------------------------------------------------------------
+// H5: 4-lane vector fields and vector point types
+// ------------------------------------------------------------------------------------------
+
+/// AVX2 4-lane field (radix 2^25.5) and the point types built on it.
+#[cfg(curve25519_dalek_backend = "simd")]
+pub mod avx2 {
+    use super::Fe;
+    use crate::backend::vector::avx2::constants as k;
+    use crate::backend::vector::avx2::edwards::{CachedPoint, ExtendedPoint};
+    use crate::backend::vector::avx2::field::{FieldElement2625x4, Lanes, Shuffle};
+    use crate::backend::vector::packed_simd::u32x8;
+    use crate::edwards::EdwardsPoint;
+    use alloc::vec::Vec;
+    use subtle::{Choice, ConditionallySelectable};
+
+    /// Does this CPU have the instructions the type needs?
+    pub fn available() -> bool {
+        cpufeatures::new!(cpuid_avx2_verif, "avx2");
+        cpuid_avx2_verif::init().get()
+    }
+
+    pub const SHUFFLES: usize = 10;
+    pub const BLENDS: usize = 8;
+
+    fn shuffle_of(i: usize) -> Shuffle {
+        [
+            Shuffle::AAAA, Shuffle::BBBB, Shuffle::CACA, Shuffle::DBBD, Shuffle::ADDA,
+            Shuffle::CBCB, Shuffle::ABAB, Shuffle::BADC, Shuffle::BACD, Shuffle::ABDC,
+        ][i]
+    }
+    pub fn shuffle_name(i: usize) -> &'static str {
+        ["AAAA", "BBBB", "CACA", "DBBD", "ADDA", "CBCB", "ABAB", "BADC", "BACD", "ABDC"][i]
+    }
+    fn lanes_of(i: usize) -> Lanes {
+        [Lanes::C, Lanes::D, Lanes::AB, Lanes::AC, Lanes::CD, Lanes::AD, Lanes::BC, Lanes::ABCD][i]
+    }
+    pub fn lanes_name(i: usize) -> &'static str {
+        ["C", "D", "AB", "AC", "CD", "AD", "BC", "ABCD"][i]
+    }
+
+    /// Four field elements, each as ten radix-2^25.5 limbs.
+    pub type Raw = [[u32; 10]; 4];
+
+    fn vec_from_raw(r: &Raw) -> FieldElement2625x4 {
+        assert!(available());
+        let mut buf = [u32x8::splat(0); 5];
+        for i in 0..5 {
+            buf[i] = u32x8::new(
+                r[0][2 * i], r[1][2 * i], r[0][2 * i + 1], r[1][2 * i + 1],
+                r[2][2 * i], r[3][2 * i], r[2][2 * i + 1], r[3][2 * i + 1],
+            );
+        }
+        FieldElement2625x4(buf)
+    }
+    fn raw_of_u32x8s(v: &[u32x8; 5]) -> Raw {
+        assert!(available());
+        let mut r = [[0u32; 10]; 4];
+        for i in 0..5 {
+            r[0][2 * i] = v[i].extract::<0>();
+            r[1][2 * i] = v[i].extract::<1>();
+            r[0][2 * i + 1] = v[i].extract::<2>();
+            r[1][2 * i + 1] = v[i].extract::<3>();
+            r[2][2 * i] = v[i].extract::<4>();
+            r[3][2 * i] = v[i].extract::<5>();
+            r[2][2 * i + 1] = v[i].extract::<6>();
+            r[3][2 * i + 1] = v[i].extract::<7>();
+        }
+        r
+    }
+
+    #[derive(Copy, Clone)]
+    pub struct Fx4(pub(crate) FieldElement2625x4);
+
+    impl Fx4 {
+        pub fn from_raw(r: &Raw) -> Fx4 {
+            Fx4(vec_from_raw(r))
+        }
+        pub fn raw(&self) -> Raw {
+            raw_of_u32x8s(&(self.0).0)
+        }
+        pub fn new(x: &[Fe; 4]) -> Fx4 {
+            assert!(available());
+            Fx4(FieldElement2625x4::new(&x[0].0, &x[1].0, &x[2].0, &x[3].0))
+        }
+        pub fn splat(x: &Fe) -> Fx4 {
+            assert!(available());
+            Fx4(FieldElement2625x4::splat(&x.0))
+        }
+        pub fn split(&self) -> [Fe; 4] {
+            assert!(available());
+            let s = self.0.split();
+            [Fe(s[0]), Fe(s[1]), Fe(s[2]), Fe(s[3])]
+        }
+        pub fn zero() -> Fx4 {
+            Fx4(FieldElement2625x4::ZERO)
+        }
+        pub fn add(&self, o: &Fx4) -> Fx4 {
+            assert!(available());
+            Fx4(self.0 + o.0)
+        }
+        pub fn mul(&self, o: &Fx4) -> Fx4 {
+            assert!(available());
+            Fx4(&self.0 * &o.0)
+        }
+        pub fn square_and_negate_d(&self) -> Fx4 {
+            assert!(available());
+            Fx4(self.0.square_and_negate_D())
+        }
+        pub fn mulc(&self, c: (u32, u32, u32, u32)) -> Fx4 {
+            assert!(available());
+            Fx4(self.0 * c)
+        }
+        pub fn neg(&self) -> Fx4 {
+            assert!(available());
+            Fx4(-self.0)
+        }
+        pub fn negate_lazy(&self) -> Fx4 {
+            assert!(available());
+            Fx4(self.0.negate_lazy())
+        }
+        pub fn diff_sum(&self) -> Fx4 {
+            assert!(available());
+            Fx4(self.0.diff_sum())
+        }
+        pub fn reduce(&self) -> Fx4 {
+            assert!(available());
+            Fx4(self.0.reduce())
+        }
+        pub fn shuffle(&self, i: usize) -> Fx4 {
+            assert!(available());
+            Fx4(self.0.shuffle(shuffle_of(i)))
+        }
+        pub fn blend(&self, o: &Fx4, i: usize) -> Fx4 {
+            assert!(available());
+            Fx4(self.0.blend(o.0, lanes_of(i)))
+        }
+        pub fn conditional_select(a: &Fx4, b: &Fx4, c: bool) -> Fx4 {
+            assert!(available());
+            Fx4(FieldElement2625x4::conditional_select(&a.0, &b.0, Choice::from(c as u8)))
+        }
+        pub fn conditional_assign(&self, o: &Fx4, c: bool) -> Fx4 {
+            assert!(available());
+            let mut x = self.0;
+            x.conditional_assign(&o.0, Choice::from(c as u8));
+            Fx4(x)
+        }
+    }
+
+    /// The vector constants `(name, 8 lanes)`.
+    pub fn vector_constants() -> Vec<(&'static str, [u32; 8])> {
+        assert!(available());
+        let ex = |v: u32x8| {
+            [
+                v.extract::<0>(), v.extract::<1>(), v.extract::<2>(), v.extract::<3>(),
+                v.extract::<4>(), v.extract::<5>(), v.extract::<6>(), v.extract::<7>(),
+            ]
+        };
+        let mut v = Vec::new();
+        v.push(("P_TIMES_2_LO", ex(k::P_TIMES_2_LO)));
+        v.push(("P_TIMES_2_HI", ex(k::P_TIMES_2_HI)));
+        v.push(("P_TIMES_16_LO", ex(k::P_TIMES_16_LO)));
+        v.push(("P_TIMES_16_HI", ex(k::P_TIMES_16_HI)));
+        v
+    }
+    pub fn extended_identity() -> Raw {
+        raw_of_u32x8s(&(k::EXTENDEDPOINT_IDENTITY.verif_raw()).0)
+    }
+    pub fn cached_identity() -> Raw {
+        raw_of_u32x8s(&(k::CACHEDPOINT_IDENTITY.verif_raw()).0)
+    }
+    /// The 64 entries of the AVX2 `BASEPOINT_ODD_LOOKUP_TABLE`.
+    #[cfg(feature = "precomputed-tables")]
+    pub fn basepoint_odd_table() -> Vec<Raw> {
+        k::BASEPOINT_ODD_LOOKUP_TABLE.0.iter().map(|c| raw_of_u32x8s(&(c.verif_raw()).0)).collect()
+    }
+
+    // ---- points
+    pub fn extended_from_edwards(p: &EdwardsPoint) -> Raw {
+        assert!(available());
+        Fx4(ExtendedPoint::from(*p).verif_raw()).raw()
+    }
+    pub fn extended_to_edwards(r: &Raw) -> EdwardsPoint {
+        EdwardsPoint::from(ExtendedPoint::verif_from_raw(vec_from_raw(r)))
+    }
+    pub fn extended_double(r: &Raw) -> Raw {
+        Fx4(ExtendedPoint::verif_from_raw(vec_from_raw(r)).double().verif_raw()).raw()
+    }
+    pub fn extended_mul_by_pow_2(r: &Raw, k: u32) -> Raw {
+        Fx4(ExtendedPoint::verif_from_raw(vec_from_raw(r)).mul_by_pow_2(k).verif_raw()).raw()
+    }
+    pub fn cached_from_extended(r: &Raw) -> Raw {
+        Fx4(CachedPoint::from(ExtendedPoint::verif_from_raw(vec_from_raw(r))).verif_raw()).raw()
+    }
+    pub fn cached_neg(r: &Raw) -> Raw {
+        Fx4((-&CachedPoint::verif_from_raw(vec_from_raw(r))).verif_raw()).raw()
+    }
+    pub fn extended_add_cached(p: &Raw, q: &Raw) -> Raw {
+        let (p, q) = (ExtendedPoint::verif_from_raw(vec_from_raw(p)), CachedPoint::verif_from_raw(vec_from_raw(q)));
+        Fx4((&p + &q).verif_raw()).raw()
+    }
+    pub fn extended_sub_cached(p: &Raw, q: &Raw) -> Raw {
+        let (p, q) = (ExtendedPoint::verif_from_raw(vec_from_raw(p)), CachedPoint::verif_from_raw(vec_from_raw(q)));
+        Fx4((&p - &q).verif_raw()).raw()
+    }
+    /// The cached multiples `[P, 2P, .., 8P]` of the radix-16 lookup table.
+    pub fn lookup_table(p: &EdwardsPoint) -> Vec<Raw> {
+        assert!(available());
+        let t = crate::window::LookupTable::<CachedPoint>::from(p);
+        t.0.iter().map(|c| Fx4(c.verif_raw()).raw()).collect()
+    }
+    /// The cached odd multiples `[P, 3P, .., 15P]`.
+    pub fn naf_table5(p: &EdwardsPoint) -> Vec<Raw> {
+        assert!(available());
+        let t = crate::window::NafLookupTable5::<CachedPoint>::from(p);
+        t.0.iter().map(|c| Fx4(c.verif_raw()).raw()).collect()
+    }
+    /// The cached odd multiples `[P, 3P, .., 127P]`.
+    #[cfg(any(feature = "precomputed-tables", feature = "alloc"))]
+    pub fn naf_table8(p: &EdwardsPoint) -> Vec<Raw> {
+        assert!(available());
+        let t = crate::window::NafLookupTable8::<CachedPoint>::from(p);
+        t.0.iter().map(|c| Fx4(c.verif_raw()).raw()).collect()
+    }
+}
+
+/// AVX-512 IFMA 4-lane field (radix 2^51) and the point types built on it.
+#[cfg(all(curve25519_dalek_backend = "unstable_avx512", nightly))]
+pub mod ifma {
+    use super::Fe;
+    use crate::backend::vector::ifma::constants as k;
+    use crate::backend::vector::ifma::edwards::{CachedPoint, ExtendedPoint};
+    use crate::backend::vector::ifma::field::{F51x4Reduced, F51x4Unreduced, Lanes, Shuffle};
+    use crate::backend::vector::packed_simd::u64x4;
+    use crate::edwards::EdwardsPoint;
+    use alloc::vec::Vec;
+    use subtle::{Choice, ConditionallySelectable};
+
+    pub fn available() -> bool {
+        cpufeatures::new!(cpuid_avx512_verif, "avx512ifma", "avx512vl");
+        cpuid_avx512_verif::init().get()
+    }
+
+    pub const SHUFFLES: usize = 10;
+    pub const BLENDS: usize = 6;
+    fn shuffle_of(i: usize) -> Shuffle {
+        [
+            Shuffle::AAAA, Shuffle::BBBB, Shuffle::BADC, Shuffle::BACD, Shuffle::ADDA,
+            Shuffle::CBCB, Shuffle::ABDC, Shuffle::ABAB, Shuffle::DBBD, Shuffle::CACA,
+        ][i]
+    }
+    pub fn shuffle_name(i: usize) -> &'static str {
+        ["AAAA", "BBBB", "BADC", "BACD", "ADDA", "CBCB", "ABDC", "ABAB", "DBBD", "CACA"][i]
+    }
+    fn lanes_of(i: usize) -> Lanes {
+        [Lanes::D, Lanes::C, Lanes::AB, Lanes::AC, Lanes::AD, Lanes::BCD][i]
+    }
+    pub fn lanes_name(i: usize) -> &'static str {
+        ["D", "C", "AB", "AC", "AD", "BCD"][i]
+    }
+
+    /// Four field elements, each as five radix-2^51 limbs.
+    pub type Raw = [[u64; 5]; 4];
+
+    fn vec_from_raw(r: &Raw) -> [u64x4; 5] {
+        assert!(available());
+        let mut b = [u64x4::splat(0); 5];
+        for i in 0..5 {
+            b[i] = u64x4::new(r[0][i], r[1][i], r[2][i], r[3][i]);
+        }
+        b
+    }
+    fn raw_of(v: &[u64x4; 5]) -> Raw {
+        assert!(available());
+        let mut r = [[0u64; 5]; 4];
+        for i in 0..5 {
+            r[0][i] = v[i].extract::<0>();
+            r[1][i] = v[i].extract::<1>();
+            r[2][i] = v[i].extract::<2>();
+            r[3][i] = v[i].extract::<3>();
+        }
+        r
+    }
+
+    /// Unreduced vector.
+    #[derive(Copy, Clone)]
+    pub struct Ux4(pub(crate) F51x4Unreduced);
+    /// Reduced vector.
+    #[derive(Copy, Clone)]
+    pub struct Rx4(pub(crate) F51x4Reduced);
+
+    impl Ux4 {
+        pub fn from_raw(r: &Raw) -> Ux4 {
+            Ux4(F51x4Unreduced(vec_from_raw(r)))
+        }
+        pub fn raw(&self) -> Raw {
+            raw_of(&(self.0).0)
+        }
+        pub fn new(x: &[Fe; 4]) -> Ux4 {
+            assert!(available());
+            Ux4(F51x4Unreduced::new(&x[0].0, &x[1].0, &x[2].0, &x[3].0))
+        }
+        pub fn split(&self) -> [Fe; 4] {
+            assert!(available());
+            let s = self.0.split();
+            [Fe(s[0]), Fe(s[1]), Fe(s[2]), Fe(s[3])]
+        }
+        pub fn add(&self, o: &Ux4) -> Ux4 {
+            assert!(available());
+            Ux4(self.0 + o.0)
+        }
+        pub fn negate_lazy(&self) -> Ux4 {
+            assert!(available());
+            Ux4(self.0.negate_lazy())
+        }
+        pub fn diff_sum(&self) -> Ux4 {
+            assert!(available());
+            Ux4(self.0.diff_sum())
+        }
+        pub fn shuffle(&self, i: usize) -> Ux4 {
+            assert!(available());
+            Ux4(self.0.shuffle(shuffle_of(i)))
+        }
+        pub fn blend(&self, o: &Ux4, i: usize) -> Ux4 {
+            assert!(available());
+            Ux4(self.0.blend(&o.0, lanes_of(i)))
+        }
+        pub fn reduce(&self) -> Rx4 {
+            assert!(available());
+            Rx4(F51x4Reduced::from(self.0))
+        }
+    }
+    impl Rx4 {
+        pub fn from_raw(r: &Raw) -> Rx4 {
+            Rx4(F51x4Reduced(vec_from_raw(r)))
+        }
+        pub fn raw(&self) -> Raw {
+            raw_of(&(self.0).0)
+        }
+        pub fn unreduced(&self) -> Ux4 {
+            assert!(available());
+            Ux4(F51x4Unreduced::from(self.0))
+        }
+        pub fn mul(&self, o: &Rx4) -> Ux4 {
+            assert!(available());
+            Ux4(&self.0 * &o.0)
+        }
+        pub fn square(&self) -> Ux4 {
+            assert!(available());
+            Ux4(self.0.square())
+        }
+        pub fn mulc(&self, c: (u32, u32, u32, u32)) -> Ux4 {
+            assert!(available());
+            Ux4(&self.0 * c)
+        }
+        pub fn neg(&self) -> Rx4 {
+            assert!(available());
+            Rx4(-self.0)
+        }
+        pub fn shuffle(&self, i: usize) -> Rx4 {
+            assert!(available());
+            Rx4(self.0.shuffle(shuffle_of(i)))
+        }
+        pub fn blend(&self, o: &Rx4, i: usize) -> Rx4 {
+            assert!(available());
+            Rx4(self.0.blend(&o.0, lanes_of(i)))
+        }
+        pub fn conditional_select(a: &Rx4, b: &Rx4, c: bool) -> Rx4 {
+            assert!(available());
+            Rx4(F51x4Reduced::conditional_select(&a.0, &b.0, Choice::from(c as u8)))
+        }
+        pub fn conditional_assign(&self, o: &Rx4, c: bool) -> Rx4 {
+            assert!(available());
+            let mut x = self.0;
+            x.conditional_assign(&o.0, Choice::from(c as u8));
+            Rx4(x)
+        }
+    }
+
+    pub fn extended_identity() -> Raw {
+        raw_of(&(k::EXTENDEDPOINT_IDENTITY.verif_raw()).0)
+    }
+    pub fn cached_identity() -> Raw {
+        raw_of(&(k::CACHEDPOINT_IDENTITY.verif_raw()).0)
+    }
+    #[cfg(feature = "precomputed-tables")]
+    pub fn basepoint_odd_table() -> Vec<Raw> {
+        k::BASEPOINT_ODD_LOOKUP_TABLE.0.iter().map(|c| raw_of(&(c.verif_raw()).0)).collect()
+    }
+    pub fn extended_from_edwards(p: &EdwardsPoint) -> Raw {
+        assert!(available());
+        raw_of(&(ExtendedPoint::from(*p).verif_raw()).0)
+    }
+    pub fn extended_to_edwards(r: &Raw) -> EdwardsPoint {
+        EdwardsPoint::from(ExtendedPoint::verif_from_raw(F51x4Unreduced(vec_from_raw(r))))
+    }
+    pub fn extended_double(r: &Raw) -> Raw {
+        raw_of(&(ExtendedPoint::verif_from_raw(F51x4Unreduced(vec_from_raw(r))).double().verif_raw()).0)
+    }
+    pub fn extended_mul_by_pow_2(r: &Raw, k: u32) -> Raw {
+        raw_of(&(ExtendedPoint::verif_from_raw(F51x4Unreduced(vec_from_raw(r))).mul_by_pow_2(k).verif_raw()).0)
+    }
+    pub fn cached_from_extended(r: &Raw) -> Raw {
+        raw_of(&(CachedPoint::from(ExtendedPoint::verif_from_raw(F51x4Unreduced(vec_from_raw(r)))).verif_raw()).0)
+    }
+    pub fn cached_neg(r: &Raw) -> Raw {
+        raw_of(&((-&CachedPoint::verif_from_raw(F51x4Reduced(vec_from_raw(r)))).verif_raw()).0)
+    }
+    pub fn extended_add_cached(p: &Raw, q: &Raw) -> Raw {
+        let (p, q) = (ExtendedPoint::verif_from_raw(F51x4Unreduced(vec_from_raw(p))), CachedPoint::verif_from_raw(F51x4Reduced(vec_from_raw(q))));
+        raw_of(&((&p + &q).verif_raw()).0)
+    }
+    pub fn extended_sub_cached(p: &Raw, q: &Raw) -> Raw {
+        let (p, q) = (ExtendedPoint::verif_from_raw(F51x4Unreduced(vec_from_raw(p))), CachedPoint::verif_from_raw(F51x4Reduced(vec_from_raw(q))));
+        raw_of(&((&p - &q).verif_raw()).0)
+    }
+    pub fn lookup_table(p: &EdwardsPoint) -> Vec<Raw> {
+        assert!(available());
+        let t = crate::window::LookupTable::<CachedPoint>::from(p);
+        t.0.iter().map(|c| raw_of(&(c.verif_raw()).0)).collect()
+    }
+    pub fn naf_table5(p: &EdwardsPoint) -> Vec<Raw> {
+        assert!(available());
+        let t = crate::window::NafLookupTable5::<CachedPoint>::from(p);
+        t.0.iter().map(|c| raw_of(&(c.verif_raw()).0)).collect()
+    }
+    #[cfg(any(feature = "precomputed-tables", feature = "alloc"))]
+    pub fn naf_table8(p: &EdwardsPoint) -> Vec<Raw> {
+        assert!(available());
+        let t = crate::window::NafLookupTable8::<CachedPoint>::from(p);
+        t.0.iter().map(|c| raw_of(&(c.verif_raw()).0)).collect()
+    }
+}
